@@ -220,6 +220,23 @@ pub fn profile(name: &str) -> Profile {
             p.doc.nested = false;
             p.commit_after_update = 25;
         }
+        "verylong" => {
+            // one or two replicas, hundreds of updates: revision indices pass 99 -> 100
+            p.nrep = (1, 2);
+            p.steps = (230, 280);
+            p.w = [70, 6, 6, 0, 1, 1, 2, 3, 1, 1, 1, 1, 0, 0, 3];
+            p.doc.id_pool = 4;
+            p.doc.kind_change = false;
+            p.doc.nested = false;
+            p.doc.hostile_ids = false;
+            p.commit_after_update = 12;
+        }
+        "wide" => {
+            // documents with more tracked objects than the default cache capacity (16)
+            p.doc.id_pool = 16;
+            p.caps = vec![16, 16, 3, 1];
+            p.w = [34, 16, 14, 2, 3, 3, 4, 5, 3, 3, 3, 4, 2, 0, 4];
+        }
         "bigdoc" => {
             // packs larger than the compressors' blocks; every commit is reopened
             p.nrep = (1, 2);
@@ -227,7 +244,7 @@ pub fn profile(name: &str) -> Profile {
             p.w = [45, 25, 8, 0, 0, 3, 0, 2, 2, 4, 2, 8, 0, 0, 1];
             p.doc.big = true;
             p.doc.id_pool = 6;
-            p.caps = vec![1, 2];
+            p.caps = vec![1, 2, 16];
             p.commit_after_update = 30;
         }
         "noconflictdocs" => {
@@ -495,8 +512,13 @@ impl World {
                 if !ok {
                     self.res.viol("C19", "revision-string-roundtrip", format!("{} {}", u, r));
                 }
-                if refmodel::rev_parts(r).map(|p| p.0 >= 10).unwrap_or(false) {
-                    self.res.feat_max("index_ge_10", 1);
+                if let Some(idx) = refmodel::rev_parts(r).map(|p| p.0) {
+                    if idx >= 10 {
+                        self.res.feat_max("index_ge_10", 1);
+                    }
+                    if idx >= 100 {
+                        self.res.feat_max("index_ge_100", 1);
+                    }
                 }
             }
             self.res.count("c05_objects_checked", 1);
